@@ -3,6 +3,11 @@
 import os
 import sys
 
+if os.environ.get("PYTHONHASHSEED") != "0":
+    # set/dict iteration order inside lbry (e.g. set.pop() of pending contacts) must not vary between runs
+    os.environ["PYTHONHASHSEED"] = "0"
+    os.execv(sys.executable, [sys.executable] + sys.argv)
+
 sys.path.insert(0, os.path.dirname(os.path.abspath(__file__)))
 from vlib.runner import main  # noqa: E402
 
